@@ -1,6 +1,10 @@
 """
 deferring_chunked_producer.more (supervisor/http.py) -- the chunk framing and the text->bytes
 conversion of fix F8 -- and HTTPHandler.chunked_size (supervisor/http_client.py).
+
+deferring_http_channel.refill_buffer (supervisor/http.py) and async_chat.initiate_send
+(supervisor/medusa/asynchat_25.py): the channel's output buffer between the producers and the socket --
+what a refill does with the bytes not yet sent, what is offered to send(), what is kept afterwards.
 """
 import ast, os
 from extract import Site, REPO, find_func
@@ -32,6 +36,37 @@ def TABLES():
     importlib.reload(hc)
     out.append('/-- http_client.CRLF, the line terminator of HTTPHandler -/')
     out.append('def clientCRLF : List UInt8 := [%s]' % ', '.join(str(b) for b in hc.CRLF))
+    # ---- the channel's output buffer: who defines the methods that touch it ------------------------
+    ms = ast.parse(open(os.path.join(REPO, 'supervisor/medusa/http_server.py')).read())
+    ac = ast.parse(open(os.path.join(REPO, 'supervisor/medusa/asynchat_25.py')).read())
+    watched = ['initiate_send', 'handle_write', 'refill_buffer', 'push_with_producer', 'discard_buffers']
+    def defined(tr, cls):
+        c = [n for n in tr.body if isinstance(n, ast.ClassDef) and n.name == cls]
+        assert len(c) == 1, cls
+        names = [n.name for n in c[0].body if isinstance(n, ast.FunctionDef)]
+        return [m for m in watched if m in names], c[0]
+    d_chan, chan_cls = defined(tree, 'deferring_http_channel')
+    d_http, _ = defined(ms, 'http_channel')
+    d_chat, _ = defined(ac, 'async_chat')
+    out.append('/-- which of initiate_send / handle_write / refill_buffer / push_with_producer / discard_buffers each class of the channel\'s MRO defines -/')
+    out.append('def outbuf_methods_deferring_http_channel : List String := [%s]' % ', '.join('"%s"' % m for m in d_chan))
+    out.append('def outbuf_methods_http_channel : List String := [%s]' % ', '.join('"%s"' % m for m in d_http))
+    out.append('def outbuf_methods_async_chat : List String := [%s]' % ', '.join('"%s"' % m for m in d_chat))
+    obs = [n.value.value for n in chan_cls.body if isinstance(n, ast.Assign) and ast.unparse(n.targets[0]) == 'ac_out_buffer_size'
+           and isinstance(n.value, ast.Constant)]
+    assert len(obs) == 1, 'deferring_http_channel.ac_out_buffer_size'
+    out.append('/-- deferring_http_channel.ac_out_buffer_size -/')
+    out.append('def chanOutBufferSize : Int := %d' % obs[0])
+    # every statement of refill_buffer that assigns ac_out_buffer (there must be nothing but appends)
+    rb = find_func(tree, 'deferring_http_channel.refill_buffer')
+    assigns = []
+    for n in ast.walk(rb):
+        if isinstance(n, ast.Assign) and any(ast.unparse(t) == 'self.ac_out_buffer' for t in n.targets):
+            assigns.append((n.lineno, ast.unparse(n)))
+        elif isinstance(n, ast.AugAssign) and ast.unparse(n.target) == 'self.ac_out_buffer':
+            assigns.append((n.lineno, ast.unparse(n)))
+    out.append('/-- every assignment to self.ac_out_buffer in deferring_http_channel.refill_buffer -/')
+    out.append('def refillAssignsOutBuffer : List String := [%s]' % ', '.join('"%s"' % t.replace('"', "'") for _, t in sorted(assigns)))
     return out
 
 
@@ -44,4 +79,15 @@ SITES = [
     Site('supervisor/http_client.py', 'HTTPHandler.chunked_size', 'decSize', '(buffer : List UInt8) (chunk_size : Int)',
          {'self.buffer': ('buffer', 'bytes'), 'int(line.split()[0], 16)': ('chunk_size', 'int')},
          want={'decSize_g0', 'decSize_g1'}),
+    # the channel's refill: a1 `self.ac_out_buffer += p` (a bytes object in the fifo), g6 `elif data`, a4 the refill itself
+    Site('supervisor/http.py', 'deferring_http_channel.refill_buffer', 'chRefill', '(buf data : List UInt8)',
+         {'self.ac_out_buffer': ('buf', 'bytes'), 'data': ('data', 'bytes'), 'p': ('data', 'bytes')},
+         want={'chRefill_a1', 'chRefill_g6', 'chRefill_a4'}),
+    # async_chat.initiate_send: g0 `len(buf) < obs` (refill?), g1 `buf and connected`, c0_0 what is offered to send(),
+    # g2 `if num_sent`, a2 what is kept
+    Site('supervisor/medusa/asynchat_25.py', 'async_chat.initiate_send', 'initSend',
+         '(buf : List UInt8) (obs num_sent : Int) (connected : Bool)',
+         {'self.ac_out_buffer': ('buf', 'bytes'), 'self.ac_out_buffer_size': ('obs', 'int'), 'num_sent': ('num_sent', 'int'),
+          'self.connected': ('connected', 'bool')},
+         want={'initSend_g0', 'initSend_g1', 'initSend_c0_0', 'initSend_g2', 'initSend_a2'}, calls=('self.send',)),
 ]
